@@ -992,6 +992,78 @@ func ruleOffloadProvenance(r *Run) {
 	}
 	nLabels, nLine := 0, 0
 	bad := false
+	// the elements a slice value is made of: appended values, through local accumulators, phis
+	// and first-party helpers that return an accumulated slice; ok=false when some part of the
+	// value is of unknown make
+	var elementsOf func(v ssa.Value, depth int, seen map[ssa.Value]bool) ([]ssa.Value, bool)
+	elementsOf = func(v ssa.Value, depth int, seen map[ssa.Value]bool) ([]ssa.Value, bool) {
+		if v == nil || depth > 12 {
+			return nil, false
+		}
+		if seen[v] {
+			return nil, true
+		}
+		seen[v] = true
+		v = stripTypeOnly(v)
+		switch x := v.(type) {
+		case *ssa.Const:
+			return nil, x.Value == nil
+		case *ssa.MakeSlice:
+			return nil, true
+		case *ssa.Phi:
+			var out []ssa.Value
+			for _, e := range x.Edges {
+				es, ok := elementsOf(e, depth+1, seen)
+				if !ok {
+					return nil, false
+				}
+				out = append(out, es...)
+			}
+			return out, true
+		case *ssa.UnOp:
+			if x.Op != token.MUL {
+				return nil, false
+			}
+			if f, base, ok := fieldNameOf(x.X); ok && (f == "Labels" || f == "Line") && typeKey(derefType(base.Type())) == "SelectLogsParams" {
+				return nil, true // the accumulated field itself
+			}
+			if al, ok := x.X.(*ssa.Alloc); ok {
+				var out []ssa.Value
+				for _, st := range storesTo(al) {
+					es, ok := elementsOf(st.Val, depth+1, seen)
+					if !ok {
+						return nil, false
+					}
+					out = append(out, es...)
+				}
+				return out, true
+			}
+			return nil, false
+		case *ssa.Call:
+			if isAppend(x) && len(x.Call.Args) == 2 {
+				base, ok := elementsOf(x.Call.Args[0], depth+1, seen)
+				if !ok {
+					return nil, false
+				}
+				return append(base, appended(x)...), true
+			}
+			if callee := staticCallee(x); callee != nil && callee.Blocks != nil && isFirstParty(pkgPathOf(callee)) {
+				var out []ssa.Value
+				for _, ret := range returnsOf(callee) {
+					if len(ret.Results) == 0 {
+						return nil, false
+					}
+					es, ok := elementsOf(ret.Results[0], depth+1, seen)
+					if !ok {
+						return nil, false
+					}
+					out = append(out, es...)
+				}
+				return out, true
+			}
+		}
+		return nil, false
+	}
 	for _, g := range grp {
 		allInstrs(g, func(in ssa.Instruction) {
 			st, ok := in.(*ssa.Store)
@@ -1002,13 +1074,13 @@ func ruleOffloadProvenance(r *Run) {
 			if !ok || (f != "Labels" && f != "Line") || typeKey(derefType(base.Type())) != "SelectLogsParams" {
 				return
 			}
-			c, ok := st.Val.(*ssa.Call)
-			if !ok {
+			elems, known := elementsOf(st.Val, 0, map[ssa.Value]bool{})
+			if !known {
 				bad = true
-				o.Fail(r.pos(st.Pos()), "params.%s is set to %s, not appended to", f, describe(st.Val, 0))
+				o.Fail(r.pos(st.Pos()), "params.%s is set to %s, whose elements the rule cannot enumerate", f, describe(st.Val, 1))
 				return
 			}
-			for _, e := range appended(c) {
+			for _, e := range elems {
 				e = originValueIn(stripTypeOnly(e), grp)
 				switch f {
 				case "Labels":
@@ -1022,8 +1094,22 @@ func ruleOffloadProvenance(r *Run) {
 									okSrc = true
 								} else if al, ok := mb.(*ssa.Alloc); ok {
 									for _, s2 := range storesTo(al) {
-										if s2.Val == ssa.Value(sel) {
+										if originValueIn(s2.Val, grp) == ssa.Value(sel) {
 											okSrc = true
+										}
+									}
+								}
+							}
+							// a helper that is given sel.Matchers
+							if root := originValueIn(ia.X, grp); root != nil {
+								if mf, mb, ok := loadOfField(root); ok && mf == "Matchers" {
+									if originValueIn(mb, grp) == ssa.Value(sel) {
+										okSrc = true
+									} else if al, ok := mb.(*ssa.Alloc); ok {
+										for _, s2 := range storesTo(al) {
+											if originValueIn(s2.Val, grp) == ssa.Value(sel) {
+												okSrc = true
+											}
 										}
 									}
 								}
